@@ -41,6 +41,14 @@ pub struct C14Case {
     /// the recorder also emits an explicit `.append` on a topic outside its own name
     #[serde(default)]
     pub explicit_append: bool,
+    /// additionally, this many trigger frames are appended by two writers as fast as they can
+    /// while the (slow) handler works. Its own outputs queue up behind the triggers, so the
+    /// backlog peaks at 2-3x this number: 130..320 stays far above the 100-slot delivery
+    /// buffer and safely below the 1024-slot broadcast buffer (everything must be processed);
+    /// 500..650 may overrun it (then the handler's subscription ends: it must have processed
+    /// a gap-free prefix and must announce that it stopped). No second handler in such cases.
+    #[serde(default)]
+    pub big_burst: u16,
 }
 
 const TOPICS: &[&str] = &["trig", "note", "h.out", "h.registered", "x.register", "g.out"];
@@ -59,8 +67,9 @@ pub fn strategy() -> BoxedStrategy<C14Case> {
         prop_oneof![2 => Just(0u8), 2 => 1u8..6],
         proptest::option::weighted(0.15, 15u8..40),
         any::<bool>(),
+        prop_oneof![24 => Just(0u16), 2 => 130u16..320, 1 => 500u16..650],
     )
-        .prop_map(|(ctx, resume, pre, earlier_lifecycle, other_handler, bursts, busy_ms, pulse_ms, explicit_append)| C14Case {
+        .prop_map(|(ctx, resume, pre, earlier_lifecycle, other_handler, bursts, busy_ms, pulse_ms, explicit_append, big_burst)| C14Case {
             ctx,
             resume,
             pre,
@@ -70,6 +79,7 @@ pub fn strategy() -> BoxedStrategy<C14Case> {
             busy_ms,
             pulse_ms,
             explicit_append,
+            big_burst,
         })
         .boxed()
 }
@@ -121,9 +131,13 @@ pub fn run_case(case: &C14Case) -> Result<CaseInfo, Fail> {
 }
 
 fn wait_for(nu: &mut Nu, what: &str, pred: impl FnMut(&[WFrame]) -> bool) -> Result<Vec<WFrame>, Fail> {
-    let (fr, ok) = nu.wait(Duration::from_secs(20), pred)?;
+    wait_for_secs(nu, 20, what, pred)
+}
+
+fn wait_for_secs(nu: &mut Nu, secs: u64, what: &str, pred: impl FnMut(&[WFrame]) -> bool) -> Result<Vec<WFrame>, Fail> {
+    let (fr, ok) = nu.wait(Duration::from_secs(secs), pred)?;
     if !ok {
-        return Err(bad(format!("{what} did not happen within 20 s")));
+        return Err(bad(format!("{what} did not happen within {secs} s")));
     }
     Ok(fr)
 }
@@ -158,7 +172,7 @@ fn run_in(case: &C14Case, nu: &mut Nu) -> Result<CaseInfo, Fail> {
             pre_in_ctx.push(w);
         }
     }
-    if case.other_handler {
+    if case.other_handler && case.big_burst == 0 {
         let g = nu.append("g.register", hctx, Some(ECHO_SCRIPT.as_bytes()), None)?;
         wait_for(nu, "registration of g", |fr| {
             fr.iter().any(|w| w.topic == "g.registered" && meta_of(w, "handler_id").as_deref() == Some(&g.id))
@@ -179,7 +193,8 @@ fn run_in(case: &C14Case, nu: &mut Nu) -> Result<CaseInfo, Fail> {
         }
     };
     let tail = resume_str == "tail";
-    let script = recorder_script(&resume_str, case.busy_ms, case.pulse_ms, case.explicit_append);
+    let busy_ms = if case.big_burst > 0 { case.busy_ms.max(2) } else { case.busy_ms };
+    let script = recorder_script(&resume_str, busy_ms, case.pulse_ms, case.explicit_append);
     let reg = nu.append("h.register", hctx, Some(script.as_bytes()), None)?;
     let after_reg = wait_for(nu, "h.registered", |fr| {
         fr.iter().any(|w| (w.topic == "h.registered" || w.topic == "h.unregistered") && meta_of(w, "handler_id").as_deref() == Some(&reg.id))
@@ -194,7 +209,7 @@ fn run_in(case: &C14Case, nu: &mut Nu) -> Result<CaseInfo, Fail> {
         .unwrap();
 
     // ---- bursts from concurrent writers while it is busy -----------------------------------
-    let writers: Vec<WriterSpec> = case
+    let mut writers: Vec<WriterSpec> = case
         .bursts
         .iter()
         .map(|b| WriterSpec {
@@ -216,6 +231,14 @@ fn run_in(case: &C14Case, nu: &mut Nu) -> Result<CaseInfo, Fail> {
                 .collect(),
         })
         .collect();
+    if case.big_burst > 0 {
+        for _ in 0..2 {
+            writers.push(WriterSpec {
+                start_delay_us: 0,
+                frames: (0..case.big_burst / 2).map(|_| (fspec("trig", hctx, None, None), 0)).collect(),
+            });
+        }
+    }
     must(
         "burst",
         nu.exec.scenario(&ScenarioSpec {
@@ -224,14 +247,53 @@ fn run_in(case: &C14Case, nu: &mut Nu) -> Result<CaseInfo, Fail> {
         }),
     )?;
     let fin = nu.append("fin", hctx, None, None)?;
-    let all = wait_for(nu, "the handler's answer to the last frame of its context", |fr| {
+    let overrun = case.big_burst >= 450;
+    let done = |fr: &[WFrame]| {
         fr.iter().any(|w| {
             (w.topic == "h.out" && meta_of(w, "frame_id").as_deref() == Some(&fin.id) && meta_of(w, "handler_id").as_deref() == Some(&reg.id))
                 || (w.topic == "h.unregistered" && meta_of(w, "handler_id").as_deref() == Some(&reg.id))
         })
-    })?;
+    };
+    let all = if case.big_burst == 0 {
+        wait_for(nu, "the handler's answer to the last frame of its context", done)?
+    } else {
+        // hundreds of invocations: wait as long as the handler makes progress (a new stamped
+        // frame at least every 20 s), at most 5 minutes
+        let hard = std::time::Instant::now() + Duration::from_secs(300);
+        let mut last_count = 0usize;
+        let mut last_progress = std::time::Instant::now();
+        loop {
+            let fr = nu.frames()?;
+            if done(&fr) {
+                break fr;
+            }
+            let count = fr.iter().filter(|w| meta_of(w, "handler_id").as_deref() == Some(&reg.id)).count();
+            if count != last_count {
+                last_count = count;
+                last_progress = std::time::Instant::now();
+            }
+            if last_progress.elapsed() > Duration::from_secs(20) || std::time::Instant::now() > hard {
+                return Err(bad(format!(
+                    "after a burst of {} frames the handler went silent: {} frames carry its id, the last frame of its context is unanswered, and no h.unregistered announces that it stopped (20 s without progress)",
+                    case.big_burst, count
+                )));
+            }
+            std::thread::sleep(Duration::from_millis(20));
+        }
+    };
+    let mut lagged_out = false;
     if let Some(u) = all.iter().find(|w| w.topic == "h.unregistered" && meta_of(w, "handler_id").as_deref() == Some(&reg.id)) {
-        return Err(bad(format!("the recorder handler stopped by itself: {:?}", u.meta)));
+        if overrun && meta_of(u, "error").is_some() {
+            // its subscription ended under it (announced): what it processed must be a prefix
+            lagged_out = true;
+            std::thread::sleep(Duration::from_millis(50));
+            let later = nu.frames()?;
+            if let Some(x) = later.iter().find(|w| w.id128() > u.id128() && meta_of(w, "handler_id").as_deref() == Some(&reg.id)) {
+                return Err(bad(format!("the handler announced that it stopped ({}) and still emitted {} afterwards", u.id, x.topic)));
+            }
+        } else {
+            return Err(bad(format!("the recorder handler stopped by itself: {:?}", u.meta)));
+        }
     }
 
     // the threshold of a replay that was still running when the live frames arrived comes
@@ -314,6 +376,10 @@ fn run_in(case: &C14Case, nu: &mut Nu) -> Result<CaseInfo, Fail> {
     // up to and including fin
     let upto = seen.iter().position(|s| *s == fin.id).map(|p| p + 1).unwrap_or(seen.len());
     let seen = &seen[..upto];
+    if lagged_out {
+        // a handler that could not keep up stops: everything before that point once, in order
+        expected.truncate(seen.len());
+    }
     if seen != expected.as_slice() {
         let topic_of = |id: &String| all.iter().find(|w| w.id == *id).map(|w| w.topic.clone()).unwrap_or("?".into());
         let extra: Vec<(String, String)> = seen.iter().filter(|s| !expected.contains(s)).map(|s| (s.clone(), topic_of(s))).collect();
@@ -364,7 +430,9 @@ fn run_in(case: &C14Case, nu: &mut Nu) -> Result<CaseInfo, Fail> {
     let mut labels = vec![];
     for (on, name) in [
         (case.earlier_lifecycle, "earlier-lifecycle-in-history"),
-        (case.other_handler, "second-handler-in-context"),
+        (case.other_handler && case.big_burst == 0, "second-handler-in-context"),
+        (case.big_burst > 0, "burst-of-hundreds-while-busy"),
+        (lagged_out, "handler-lagged-out-and-announced-it"),
         (case.busy_ms > 0, "busy-handler"),
         (case.pulse_ms.is_some(), "pulse"),
         (tail, "resume-tail"),
@@ -377,7 +445,7 @@ fn run_in(case: &C14Case, nu: &mut Nu) -> Result<CaseInfo, Fail> {
     }
     Ok(CaseInfo {
         nontrivial: (case.busy_ms > 0 && burst_total >= 3) || own_output_in_history,
-        shape: hash64(format!("{:?}", (case.ctx, &case.resume, &case.pre, case.earlier_lifecycle, case.other_handler, &case.bursts, case.busy_ms > 0, case.pulse_ms.is_some())).as_bytes()),
+        shape: hash64(format!("{:?}", (case.ctx, &case.resume, &case.pre, case.earlier_lifecycle, case.other_handler, &case.bursts, case.busy_ms > 0, case.pulse_ms.is_some(), case.big_burst)).as_bytes()),
         labels,
         known: vec![],
         checks: outs.len() as u64,
